@@ -17,7 +17,7 @@ use crate::{
 
 mod adapter;
 pub use adapter::RdfTerm;
-use adapter::convert_quad;
+use adapter::try_convert_quad;
 
 mod source;
 pub use source::JsonLdQuadSource;
@@ -103,13 +103,14 @@ impl<LF> JsonLdParser<LF> {
             .await
         {
             Err(ToRdfError::Expand(err)) => JsonLdQuadSource::from_err(err),
-            Ok(mut to_rdf) => JsonLdQuadSource::Quads(
-                to_rdf
-                    .cloned_quads()
-                    .map(convert_quad)
-                    .collect::<Vec<Spog<RdfTerm>>>()
-                    .into_iter(),
-            ),
+            Ok(mut to_rdf) => match to_rdf
+                .cloned_quads()
+                .map(try_convert_quad)
+                .collect::<Result<Vec<Spog<RdfTerm>>, _>>()
+            {
+                Ok(quads) => JsonLdQuadSource::Quads(quads.into_iter()),
+                Err(err) => JsonLdQuadSource::from_err(err),
+            },
         }
     }
 
